@@ -154,3 +154,69 @@ func Fill(v reflect.Value, tag string, depth int) {
 		}
 	}
 }
+
+// Residue reports what a released object still holds outside its visible length: for every
+// slice reachable from v (through exported fields, pointers, interfaces and the slices'
+// visible elements) the elements between len and cap that are not the zero value. A freshly
+// constructed object has none; a pooled one that merely truncates a slice keeps the previous
+// holder's children (and whatever they reference) one reslice away.
+func Residue(v reflect.Value) []string {
+	var out []string
+	seen := map[uintptr]bool{}
+	var walk func(v reflect.Value, path string, depth int)
+	walk = func(v reflect.Value, path string, depth int) {
+		if !v.IsValid() || depth > 200 {
+			return
+		}
+		switch v.Kind() {
+		case reflect.Interface:
+			if !v.IsNil() {
+				walk(v.Elem(), path, depth+1)
+			}
+		case reflect.Ptr:
+			if v.IsNil() {
+				return
+			}
+			p := v.Pointer()
+			if seen[p] {
+				return
+			}
+			seen[p] = true
+			walk(v.Elem(), path, depth+1)
+		case reflect.Struct:
+			for i := 0; i < v.NumField(); i++ {
+				if v.Type().Field(i).PkgPath != "" {
+					continue
+				}
+				walk(v.Field(i), path+"."+v.Type().Field(i).Name, depth+1)
+			}
+		case reflect.Slice:
+			if v.IsNil() {
+				return
+			}
+			full := v.Slice(0, v.Cap())
+			for i := v.Len(); i < full.Len(); i++ {
+				if !full.Index(i).IsZero() {
+					out = append(out, path+"[len+"+itoa(i-v.Len())+"] of cap "+itoa(v.Cap()))
+					break
+				}
+			}
+			for i := 0; i < v.Len(); i++ {
+				walk(v.Index(i), path+"[]", depth+1)
+			}
+		}
+	}
+	walk(v, "", 0)
+	return out
+}
+
+func itoa(i int) string {
+	if i == 0 {
+		return "0"
+	}
+	var b []byte
+	for ; i > 0; i /= 10 {
+		b = append([]byte{byte('0' + i%10)}, b...)
+	}
+	return string(b)
+}
